@@ -112,6 +112,10 @@ func parseStep(a []interface{}) (st Step, err error) {
 		st.T = toTx(a[1:5])
 	case "ab":
 		st.T, st.T2 = toTx(a[1].([]interface{})), toTx(a[2].([]interface{}))
+	case "bb", "bl":
+		for _, x := range a[1].([]interface{}) {
+			st.Ts = append(st.Ts, toTx(x.([]interface{})))
+		}
 	case "rs":
 		st.A, st.N, st.B, st.G = num(a[1]), num(a[2]), int64(num(a[3])), uint64(num(a[4]))
 	case "mn":
@@ -238,6 +242,14 @@ func TestReplay(t *testing.T) {
 			if !resultOK || len(got) > 5 && got[:6] == "PANIC:" {
 				res.Mismatch(pfx+"result:"+st.Op+":"+st.Res+"->"+got,
 					fmt.Sprintf("[%s] step %d of %v: the real pool answered %q, the specification says %q", c.Tag, k+1, l.H, got, st.Res),
+					detail(k, nil))
+				return
+			}
+			if (st.Op == "bb" || st.Op == "bl") && st.Alts == 1 && got != st.Res {
+				// the accept/reject pattern agrees but a slot carries another transaction's error class: the vector is
+				// per slot, a shifted class is a wrong answer about that submission
+				res.Mismatch(pfx+"result-vector:"+st.Op,
+					fmt.Sprintf("[%s] step %d of %v: the real pool answered %q slot by slot, the specification says %q", c.Tag, k+1, l.H, got, st.Res),
 					detail(k, nil))
 				return
 			}
